@@ -118,7 +118,10 @@ def run_roundtrip(sc):
     # prepare under a fixed mask
     if mk in ("partial", "empty", "full") and len(shape) >= 1:
         info = Info(time=None, grid=NoGrid(dim=len(shape), data_shape=shape), mask=mask, units="m")
-        for payload in (data.copy(), np.ma.array(data.copy(), mask=mask, shrink=False)):
+        payloads = [(data.copy(), 1.0), (np.ma.array(data.copy(), mask=mask, shrink=False), 1.0),
+                    # quantified, unmasked, in foreign units: converted AND masked
+                    (tools.UNITS.Quantity(data.copy(), "km"), 1000.0), (tools.UNITS.Quantity(data.copy(), "m"), 1.0)]
+        for payload, fac in payloads:
             try:
                 p = tools.prepare(payload, info)
             except Exception as e:
@@ -127,8 +130,9 @@ def run_roundtrip(sc):
             pm = p.magnitude
             if not np.ma.isMaskedArray(pm) or not np.array_equal(np.ma.getmaskarray(pm)[0], mask):
                 v("mask-prepare", "mask", f"{sc}: prepare() under a fixed mask did not apply exactly that mask")
-            elif not np.array_equal(np.ma.getdata(pm)[0][~mask], data[~mask]):
-                v("mask-prepare", "values", f"{sc}: prepare() changed unmasked values")
+            elif not np.allclose(np.ma.getdata(pm)[0][~mask], data[~mask] * fac, rtol=1e-12) or p.units != tools.UNITS.Unit("m"):
+                v("mask-prepare", "values", f"{sc}: prepare() under a fixed mask delivered wrong values/units "
+                  f"(payload {'quantity x' + str(fac) if fac != 1.0 or hasattr(payload, 'units') else 'plain'})")
     return viol
 
 
